@@ -208,11 +208,19 @@ Inductive aggfn := ACountStar | ACountNonNull (e : expr).
 
 Definition item := (expr * option var)%type.
 
+(** [ExpandOp]'s hop range and path alias.  Single hop ([hop1]: min = 1, max = Some 1) is planned as
+    [ExpandOperator]; anything else as [VariableLengthExpandOperator] with max = "min + 10" when the
+    query gives none ([Planner::plan_expand]). *)
+Record hops := mkHops { h_min : nat; h_max : option nat; h_path : option var }.
+Definition hop1 : hops := mkHops 1 (Some 1%nat) None.
+Definition is_single (h : hops) : bool :=
+  Nat.eqb (h_min h) 1 && (match h_max h with Some 1%nat => true | _ => false end).
+
 Inductive plan :=
 | PEmpty
 | PScan (x : var) (label : option string)                       (* NodeScan, input = None *)
 | PScanIn (x : var) (label : option string) (inp : plan)        (* NodeScan, input = Some *)
-| PExpand (from to : var) (ev : option var) (d : dir) (ty : option string) (inp : plan)  (* 1 hop *)
+| PExpand (from to : var) (ev : option var) (d : dir) (ty : option string) (h : hops) (inp : plan)
 | PFilter (pred : expr) (inp : plan)
 | PProject (items : list item) (inp : plan)
 | PReturn (items : list item) (distinct : bool) (inp : plan)
@@ -244,13 +252,20 @@ Definition agg_name (a : aggfn * option var) : var :=
   | None => match fst a with ACountStar => "count(...)"%string | ACountNonNull _ => "countnonnull(...)"%string end
   end.
 
+(** the columns an Expand appends: edge (when named), target, path length (when the pattern has a
+    path alias [p], as the hidden column [_path_length_p]) *)
+Definition plen_name (p : var) : var := ("_path_length_" ++ p)%string.
+Definition xnames (t : var) (ev : option var) (h : hops) : list var :=
+  (match ev with Some e => [e] | None => [] end) ++ [t]
+  ++ (match h_path h with Some p => [plen_name p] | None => [] end).
+
 (** the column names the planner computes for an operator *)
 Fixpoint schema (p : plan) : list var :=
   match p with
   | PEmpty => []
   | PScan x _ => [x]
   | PScanIn x _ inp => schema inp ++ [x]
-  | PExpand _ t ev _ _ inp => schema inp ++ (match ev with Some e => [e] | None => [] end) ++ [t]
+  | PExpand _ t ev _ _ h inp => schema inp ++ xnames t ev h
   | PFilter _ inp => schema inp
   | PProject items _ => map item_name items
   | PReturn items _ _ => map item_name items
@@ -276,12 +291,37 @@ Definition neighbours (G : graph) (s : Z) (d : dir) (ty : option string) : list 
                  (filter (fun e => (e_dst e =? s) && edge_matches ty e) (g_edges G)) in
   match d with DOut => outs | DIn => ins | DBoth => outs ++ ins end.
 
-Definition expand_row (G : graph) (f t : var) (ev : option var) (d : dir) (ty : option string) (r : row)
+(** [VariableLengthExpandOperator::process_input_row]: breadth first from the source, every walk
+    (edges and nodes may repeat) of depth 1 .. max, reported when min <= depth; the queue is FIFO, so
+    the output is level by level, within a level in the order of the parents.  Reported: the *last*
+    edge of the walk, its end node, the depth. *)
+Fixpoint vl_levels (G : graph) (d : dir) (ty : option string) (fuel depth mn mx : nat) (cur : list (Z * Z))
+  : list (Z * Z * nat) :=
+  match fuel with
+  | O => []
+  | S fuel' =>
+      (if Nat.leb mn depth && Nat.leb depth mx then map (fun et => (fst et, snd et, depth)) cur else [])
+      ++ (if Nat.ltb depth mx
+          then vl_levels G d ty fuel' (S depth) mn mx (flat_map (fun et => neighbours G (snd et) d ty) cur)
+          else [])
+  end.
+
+Definition hop_max (h : hops) : nat :=
+  Nat.max (match h_max h with Some m => m | None => h_min h + 10 end) (h_min h).
+
+(** (edge, end node, depth) of everything one source node expands to *)
+Definition reach_from (G : graph) (s : Z) (d : dir) (ty : option string) (h : hops) : list (Z * Z * nat) :=
+  if is_single h then map (fun et => (fst et, snd et, 1%nat)) (neighbours G s d ty)
+  else vl_levels G d ty (hop_max h) 1 (h_min h) (hop_max h) (neighbours G s d ty).
+
+Definition xcols (t : var) (ev : option var) (h : hops) (x : Z * Z * nat) : row :=
+  (match ev with Some e => [(e, VEdge (fst (fst x)))] | None => [] end) ++ [(t, VNode (snd (fst x)))]
+  ++ (match h_path h with Some p => [(plen_name p, VInt (Z.of_nat (snd x)))] | None => [] end).
+
+Definition expand_row (G : graph) (f t : var) (ev : option var) (d : dir) (ty : option string) (h : hops) (r : row)
   : list row :=
   match lookup f r with
-  | Some (VNode s) =>
-      map (fun et => r ++ (match ev with Some e => [(e, VEdge (fst et))] | None => [] end) ++ [(t, VNode (snd et))])
-          (neighbours G s d ty)
+  | Some (VNode s) => map (fun x => r ++ xcols t ev h x) (reach_from G s d ty h)
   | _ => []
   end.
 
@@ -407,7 +447,7 @@ Fixpoint sem (G : graph) (p : plan) : list row :=
   | PEmpty => []
   | PScan x l => map (fun n => [(x, VNode n)]) (scan_nodes G l)
   | PScanIn x l inp => flat_map (fun r => map (fun n => r ++ [(x, VNode n)]) (scan_nodes G l)) (sem G inp)
-  | PExpand f t ev d ty inp => flat_map (expand_row G f t ev d ty) (sem G inp)
+  | PExpand f t ev d ty h inp => flat_map (expand_row G f t ev d ty h) (sem G inp)
   | PFilter e inp => filter (passes G e) (sem G inp)
   | PProject items inp => map (project_row G items) (sem G inp)
   | PReturn items _ inp => map (project_row G items) (sem G inp)
@@ -436,7 +476,7 @@ Fixpoint semq (G : graph) (p : plan) : list row * list row :=
   | PScan x l => same (map (fun n => [(x, VNode n)]) (scan_nodes G l))
   | PScanIn x l inp =>
       same (flat_map (fun r => map (fun n => r ++ [(x, VNode n)]) (scan_nodes G l)) (fst (semq G inp)))
-  | PExpand f t ev d ty inp => same (flat_map (expand_row G f t ev d ty) (fst (semq G inp)))
+  | PExpand f t ev d ty h inp => same (flat_map (expand_row G f t ev d ty h) (fst (semq G inp)))
   | PFilter e inp =>
       let '(vis, ph) := semq G inp in
       match filter (passes G e) vis with
@@ -469,7 +509,7 @@ Fixpoint semq_pre (G : graph) (p : plan) : list row * list row :=
   | PScan x l => same (map (fun n => [(x, VNode n)]) (scan_nodes G l))
   | PScanIn x l inp =>
       same (flat_map (fun r => map (fun n => r ++ [(x, VNode n)]) (scan_nodes G l)) (fst (semq_pre G inp)))
-  | PExpand f t ev d ty inp => same (flat_map (expand_row G f t ev d ty) (fst (semq_pre G inp)))
+  | PExpand f t ev d ty h inp => same (flat_map (expand_row G f t ev d ty h) (fst (semq_pre G inp)))
   | PFilter e inp =>
       let '(vis, ph) := semq_pre G inp in
       match vis with
@@ -496,7 +536,7 @@ Definition is_filter (p : plan) : bool := match p with PFilter _ _ => true | _ =
 Fixpoint no_stack (p : plan) : bool :=
   match p with
   | PFilter _ inp => negb (is_filter inp) && no_stack inp
-  | PScanIn _ _ i | PExpand _ _ _ _ _ i | PProject _ i | PReturn _ _ i | PAgg _ _ i
+  | PScanIn _ _ i | PExpand _ _ _ _ _ _ i | PProject _ i | PReturn _ _ i | PAgg _ _ i
   | PSort _ i | PSkip _ i | PLimit _ i | PDistinct i => no_stack i
   | PJoin _ _ l r | PLeftJoin l r | PUnion l r => no_stack l && no_stack r
   | PEmpty | PScan _ _ => true
@@ -506,7 +546,7 @@ Fixpoint no_stack (p : plan) : bool :=
 Fixpoint stack_sig (p : plan) : list (expr * expr) :=
   match p with
   | PFilter e inp => (match inp with PFilter q _ => [(e, q)] | _ => [] end) ++ stack_sig inp
-  | PScanIn _ _ i | PExpand _ _ _ _ _ i | PProject _ i | PReturn _ _ i | PAgg _ _ i
+  | PScanIn _ _ i | PExpand _ _ _ _ _ _ i | PProject _ i | PReturn _ _ i | PAgg _ _ i
   | PSort _ i | PSkip _ i | PLimit _ i | PDistinct i => stack_sig i
   | PJoin _ _ l r | PLeftJoin l r | PUnion l r => stack_sig l ++ stack_sig r
   | PEmpty | PScan _ _ => []
@@ -541,6 +581,10 @@ Definition ostr_eqb (a b : option string) : bool :=
   end.
 Definition dir_eqb (a b : dir) : bool :=
   match a, b with DOut, DOut | DIn, DIn | DBoth, DBoth => true | _, _ => false end.
+Definition onat_eqb (a b : option nat) : bool :=
+  match a, b with None, None => true | Some x, Some y => Nat.eqb x y | _, _ => false end.
+Definition hops_eqb (a b : hops) : bool :=
+  Nat.eqb (h_min a) (h_min b) && onat_eqb (h_max a) (h_max b) && ostr_eqb (h_path a) (h_path b).
 Definition jkind_eqb (a b : jkind) : bool :=
   match a, b with JInner, JInner | JCross, JCross | JLeft, JLeft => true | _, _ => false end.
 Definition item_eqb (a b : item) : bool := expr_eqb (fst a) (fst b) && ostr_eqb (snd a) (snd b).
@@ -567,8 +611,9 @@ Fixpoint plan_eqb (a b : plan) : bool :=
   | PEmpty, PEmpty => true
   | PScan x l, PScan y m => String.eqb x y && ostr_eqb l m
   | PScanIn x l i, PScanIn y m j => String.eqb x y && ostr_eqb l m && plan_eqb i j
-  | PExpand f t ev d ty i, PExpand f' t' ev' d' ty' j =>
-      String.eqb f f' && String.eqb t t' && ostr_eqb ev ev' && dir_eqb d d' && ostr_eqb ty ty' && plan_eqb i j
+  | PExpand f t ev d ty h i, PExpand f' t' ev' d' ty' h' j =>
+      String.eqb f f' && String.eqb t t' && ostr_eqb ev ev' && dir_eqb d d' && ostr_eqb ty ty' && hops_eqb h h'
+      && plan_eqb i j
   | PFilter e i, PFilter e' j => expr_eqb e e' && plan_eqb i j
   | PProject its i, PProject its' j => list_eqb item_eqb its its' && plan_eqb i j
   | PReturn its d i, PReturn its' d' j => list_eqb item_eqb its its' && Bool.eqb d d' && plan_eqb i j
